@@ -4,6 +4,9 @@
 //
 //	gotrans handlers <repo> <out.v>     every Msg service handler with its authorisation skeleton (C17);
 //	                                    also writes handlers.json next to <out.v>
+//	gotrans mintsites <repo> <out.v>    every MintCoins/BurnCoins site with denom class and reachability (C15)
+//	gotrans blockers <repo> <out.v>     block pipeline order, error propagation and failure points (C18)
+//	gotrans determinism <repo> <out.v>  keeper fields, package variables, map ranges, time/rand/goroutine uses (C19)
 package main
 
 import (
@@ -13,13 +16,19 @@ import (
 
 func main() {
 	if len(os.Args) < 4 {
-		fmt.Fprintln(os.Stderr, "usage: gotrans handlers <repo> <out.v>")
+		fmt.Fprintln(os.Stderr, "usage: gotrans handlers|mintsites|blockers|determinism <repo> <out.v>")
 		os.Exit(2)
 	}
 	var err error
 	switch os.Args[1] {
 	case "handlers":
 		err = genHandlers(os.Args[2], os.Args[3])
+	case "mintsites": // C15: every MintCoins/BurnCoins site, see mintsites.go
+		err = genMintSites(os.Args[2], os.Args[3])
+	case "blockers": // C18: begin/end blockers, epoch hooks and their failure points, see blockers.go
+		err = genBlockers(os.Args[2], os.Args[3])
+	case "determinism": // C19: keeper fields, package variables, map ranges, nondeterminism sources, see determinism.go
+		err = genDeterminism(os.Args[2], os.Args[3])
 	default:
 		err = fmt.Errorf("unknown table %q", os.Args[1])
 	}
